@@ -388,16 +388,29 @@ func genC10HistGap(t *rapid.T) *C10HistGapCase {
 	add(rig.Step{Op: "in", In: g.goodLogon(0)})
 	hb := g.hb
 	T := int64(tolT(hb))
+	sinceIn := int64(0) // virtual time since the peer last said something (local sends do not count)
 	traffic := func(n int, lbl string) {
 		for i := 0; i < n; i++ {
-			add(rig.Step{Op: "advance", Dt: rapid.Int64Range(1, int64(hb)*5e8).Draw(t, lbl+"Dt")})
+			// stay below the probe threshold: the peer's silence never reaches T here
+			room := T - sinceIn - 1e6
+			if room < 1 {
+				add(rig.Step{Op: "in", In: g.heartbeat("")})
+				sinceIn = 0
+				continue
+			}
+			dt := rapid.Int64Range(1, min(int64(hb)*5e8, room)).Draw(t, lbl+"Dt")
+			add(rig.Step{Op: "advance", Dt: dt})
+			sinceIn += dt
 			switch rapid.IntRange(0, 3).Draw(t, lbl+"Kind") {
 			case 0:
 				add(rig.Step{Op: "in", In: g.heartbeat("")})
+				sinceIn = 0
 			case 1:
 				add(rig.Step{Op: "in", In: g.testRequest(fmt.Sprintf("%s%d", lbl, i))})
+				sinceIn = 0
 			case 2:
 				add(rig.Step{Op: "in", In: g.app()})
+				sinceIn = 0
 			default:
 				add(rig.Step{Op: "send", ID: fmt.Sprintf("%s-out%d", lbl, i)})
 			}
@@ -407,8 +420,9 @@ func genC10HistGap(t *rapid.T) *C10HistGapCase {
 	if rapid.IntRange(0, 2).Draw(t, "probed") == 0 {
 		// the peer falls silent until the session probes it, then answers
 		c.Probed = true
-		add(rig.Step{Op: "advance", Dt: T + T/10 + 1e6})
+		add(rig.Step{Op: "advance", Dt: T + T/10 + 1e6 - sinceIn}) // total silence T + T/10 + 1 ms: probed, far from the 2T of a disconnect
 		add(rig.Step{Op: "in", In: g.heartbeat("1")})
+		sinceIn = 0
 		traffic(rapid.IntRange(0, 1).Draw(t, "n2"), "b")
 	}
 	endings := []string{"peer-logout", "local-logout"}
